@@ -512,7 +512,9 @@ func c18PS(s string) c18Val {
 func c18PN(m int64, e int, lit string) c18Val { return c18Val{kind: 1, mant: m, exp: e, lit: lit} }
 
 func genC18(c *Ctx) {
-	r := c.R
+	// SplitMix64 states of neighbouring seeds are shifted copies of each other (seed s at draw k+2
+	// is seed s+2 at draw k); re-seeding from one mixed output gives unrelated streams per seed
+	r := NewRng(c.R.U64())
 	// a local zone that is not UTC, so that formatting a date in local time would show
 	time.Local = time.FixedZone("verif", 5*3600+1800)
 	kv := func(k string, v c18Val) c18KV { return c18Plain(r, k, v) }
@@ -584,7 +586,7 @@ func genC18(c *Ctx) {
 	// ---------------- structured, mostly valid ----------------
 	n := 900
 	if c.Thorough() {
-		n = 40000
+		n = 25000
 	}
 	for i := 0; i < n; i++ {
 		sig := r.Bytes(c18SigLen(r))
